@@ -287,8 +287,8 @@ Print Assumptions C14_while_iteration_yields.
 Theorem C14_for_iteration_yields : forall f P e var rg body s l rg' s1 e1 s2 e2 s3,
   ranger_next rg s = (Ok (Some (l, rg')), s1) ->
   update_var var l e s1 = (Ok e1, s2) ->
-  exec_block f P e1 body s2 = (Ok (SigNone, e2), s3) ->
-  exec_for (S f) P e var rg body s = exec_for f P e2 var rg' body s3 /\ S (st_yields s) <= st_yields s3.
+  exec_block f P ([] :: e1) body s2 = (Ok (SigNone, e2), s3) ->
+  exec_for (S f) P e var rg body s = exec_for f P (tl e2) var rg' body s3 /\ S (st_yields s) <= st_yields s3.
 Proof. exact for_iteration_yields. Qed.
 Print Assumptions C14_for_iteration_yields.
 
@@ -300,7 +300,8 @@ Theorem C14_for_unfold : forall f P e var rg body,
    | None => ret (SigNone, e)
    | Some (l, rg') =>
        let* e1 := update_var var l e in
-       let* (sig, e2) := exec_block f P e1 body in
+       let* (sig, e2') := exec_block f P ([] :: e1) body in
+       let e2 := tl e2' in
        match sig with
        | SigBreak => ret (SigNone, e2)
        | SigReturn v => ret (SigReturn v, e2)
@@ -418,7 +419,7 @@ Example C14_ex_for_iteration :
   exists l rg' s1 s3,
     ranger_next ex_ranger s = (Ok (Some (l, rg')), s1) /\
     update_var underscore l [] s1 = (Ok [], s1) /\
-    exec_block 3 demo [] [] s1 = (Ok (SigNone, []), s3).
+    exec_block 3 demo [[]] [] s1 = (Ok (SigNone, [[]]), s3).
 Proof. do 4 eexists. split; [vm_compute; reflexivity|]. split; vm_compute; reflexivity. Qed.
 
 Example C14_ex_call :
